@@ -40,7 +40,9 @@ SetLocation(d) ==
                              THEN [ctx[x] EXCEPT !.assoc = "Dis", !.unbind = IF @ = -1 THEN v ELSE @] ELSE ctx[x]]
      IN /\ ctx' = [cx EXCEPT ![c] = [present |-> TRUE, d |-> d, assoc |-> "Assoc", bind |-> v, unbind |-> -1]]
         /\ mver' = v
-  /\ Log([act |-> "SetLocation", d |-> d, res |-> "ok"])
+  /\ Log([act |-> "SetLocation", d |-> d, res |-> "ok",
+          sit |-> {"L:" \o ToString(Cardinality(Assoc(ctx, d))) \o ":" \o ToString(Cardinality(Of(d)) > 1) \o ":"
+                   \o (IF \E c \in Of(d) : ctx[c].assoc = "Assoc" /\ ctx[c].unbind # -1 THEN "reassociated" ELSE "-")}])
 
 \* one proposal: [d, tgt, assoc]; tgt = "new" or an existing handle
 RECURSIVE Apply(_, _, _, _)
@@ -64,6 +66,13 @@ Apply(cx, props, i, v) ==
 Proposal == [d : Descr, tgt : CH \cup {"new", "unknown"}, assoc : {"Assoc", "Dis", "No"}]
 WellFormed(p) == /\ (p.tgt \in CH => (ctx[p.tgt].present /\ ctx[p.tgt].d = p.d /\ p.assoc \in {"Assoc", "Dis"}))
                  /\ (p.tgt = "new" => p.assoc \in {"Assoc", "No"})
+\* situation labels of a call (coverage-directed selection of the behaviours that are replayed)
+PropSit(p) == "P:" \o p.d \o ":"
+              \o (IF p.tgt \in CH THEN "existing-" \o ctx[p.tgt].assoc \o (IF ctx[p.tgt].unbind # -1 THEN "-unbound" ELSE "")
+                  ELSE p.tgt)
+              \o ":" \o p.assoc \o ":" \o ToString(Cardinality(Assoc(ctx, p.d)))
+SitOfCall(props) == {PropSit(props[i]) : i \in 1..Len(props)}
+                    \cup {"N:" \o ToString(Len(props)) \o ":" \o ToString(Cardinality({props[i].d : i \in 1..Len(props)}))}
 Rejected(props) == \/ \E i \in 1..Len(props) : props[i].tgt = "unknown"
                    \/ \E d \in Descr : Cardinality({i \in 1..Len(props) : props[i].d = d /\ props[i].assoc = "Assoc"}) > 1
 
@@ -73,9 +82,9 @@ SetContextState(props) ==
   /\ (Len(props) = 2 => props[1].tgt # props[2].tgt \/ props[1].tgt = "new")
   /\ Cardinality(Free) >= Cardinality({i \in 1..Len(props) : props[i].tgt = "new"})
   /\ IF Rejected(props)
-     THEN UNCHANGED <<ctx, mver>> /\ Log([act |-> "SetContextState", props |-> props, res |-> "rejected"])
+     THEN UNCHANGED <<ctx, mver>> /\ Log([act |-> "SetContextState", props |-> props, res |-> "rejected", sit |-> SitOfCall(props)])
      ELSE /\ ctx' = Apply(ctx, props, 1, mver + 1) /\ mver' = mver + 1
-          /\ Log([act |-> "SetContextState", props |-> props, res |-> "ok"])
+          /\ Log([act |-> "SetContextState", props |-> props, res |-> "ok", sit |-> SitOfCall(props)])
 
 Next == \/ SetLocation("lc")
         \/ \E p \in Proposal : SetContextState(<<p>>)
